@@ -14,8 +14,9 @@
 //	           sorted (a "map-ordered slice producer": SealRound, GetValidators, …): the caller inherits the schedule
 //
 // Site id  = <kind> <file>:<function>:<operand>[#k]:<fingerprint>
-// fingerprint = sha1(normalised source of the statement)[:8] "." sha1(normalised source of the whole
-// enclosing function)[:8] — the second half matters because whether a map-range is harmless usually depends
+// fingerprint = sha1(shape of the statement's syntax tree)[:8] "." sha1(shape of the whole enclosing
+// function's syntax tree)[:8]; "shape" = node kinds + identifiers + literals + operators, no positions, comments
+// or layout, so pure formatting changes do not move it — the second half matters because whether a map-range is harmless usually depends
 // on what the function does AFTER the loop (the sort that follows, the use of the collected slice).
 //
 // usage: sitescan -repo DIR -sites coq/C08/sites.txt [-props coq/C08/Props.v] [-json] [-emit]
@@ -72,6 +73,77 @@ func norm(fset *token.FileSet, n ast.Node) string {
 	cfg := printer.Config{Mode: printer.RawFormat}
 	_ = cfg.Fprint(&buf, fset, n)
 	return strings.Join(strings.Fields(buf.String()), " ")
+}
+
+// shape renders the STRUCTURE of a syntax tree: node kinds, identifiers, literal values, operators — no
+// positions, no comments, no layout.  gofmt-level changes (line breaks, trailing commas, parentheses-free
+// re-wrapping, comment edits) leave it unchanged; any change of the tree does not.
+func shape(n ast.Node) string {
+	var sb strings.Builder
+	ast.Inspect(n, func(x ast.Node) bool {
+		if x == nil {
+			sb.WriteByte(')')
+			return false
+		}
+		if _, ok := x.(*ast.CommentGroup); ok {
+			return false
+		}
+		if _, ok := x.(*ast.Comment); ok {
+			return false
+		}
+		if p, ok := x.(*ast.ParenExpr); ok && p != n {
+			// keep parentheses: they can change evaluation order only together with a tree change, but dropping
+			// them here would need a precedence-aware comparison; they are rare enough to keep
+			_ = p
+		}
+		sb.WriteByte('(')
+		sb.WriteString(strings.TrimPrefix(fmt.Sprintf("%T", x), "*ast."))
+		switch v := x.(type) {
+		case *ast.Ident:
+			sb.WriteByte(' ')
+			sb.WriteString(v.Name)
+		case *ast.BasicLit:
+			sb.WriteByte(' ')
+			sb.WriteString(v.Kind.String())
+			sb.WriteByte(' ')
+			sb.WriteString(v.Value)
+		case *ast.BinaryExpr:
+			sb.WriteString(" " + v.Op.String())
+		case *ast.UnaryExpr:
+			sb.WriteString(" " + v.Op.String())
+		case *ast.AssignStmt:
+			sb.WriteString(" " + v.Tok.String())
+		case *ast.IncDecStmt:
+			sb.WriteString(" " + v.Tok.String())
+		case *ast.BranchStmt:
+			sb.WriteString(" " + v.Tok.String())
+		case *ast.RangeStmt:
+			sb.WriteString(" " + v.Tok.String())
+		case *ast.GenDecl:
+			sb.WriteString(" " + v.Tok.String())
+		case *ast.ChanType:
+			sb.WriteString(fmt.Sprintf(" %d", v.Dir))
+		case *ast.Ellipsis, *ast.StarExpr:
+		case *ast.CallExpr:
+			if v.Ellipsis.IsValid() {
+				sb.WriteString(" ...")
+			}
+		case *ast.CompositeLit:
+			if v.Incomplete {
+				sb.WriteString(" incomplete")
+			}
+		case *ast.Field:
+			if v.Tag != nil {
+				sb.WriteString(" tag")
+			}
+		case *ast.SliceExpr:
+			if v.Slice3 {
+				sb.WriteString(" 3")
+			}
+		}
+		return true
+	})
+	return sb.String()
 }
 
 func h8(s string) string {
@@ -377,10 +449,10 @@ func scanFile(p *packages.Package, f *ast.File, rel string, out *[]*Site, produc
 			continue
 		}
 		fname := funcName(fd)
-		ffp := h8(norm(fset, fd))
+		ffp := h8(shape(fd))
 		add := func(kind string, n ast.Node, operand string, fpnode ast.Node) {
 			*out = append(*out, &Site{Kind: kind, File: rel, Func: fname, Operand: strings.Join(strings.Fields(operand), ""),
-				FP: h8(norm(fset, fpnode)) + "." + ffp, Line: fset.Position(n.Pos()).Line})
+				FP: h8(shape(fpnode)) + "." + ffp, Line: fset.Position(n.Pos()).Line})
 		}
 		ast.Inspect(fd.Body, func(n ast.Node) bool {
 			switch x := n.(type) {
